@@ -138,8 +138,25 @@ def generate(rng, tier):
         n += 1
         add_special_steps(rng, dt, pfx, mod['name'], [m['name'] for m in world['modules']])
     world['extra_files'] = {'simsibling.py': 'VALUE = 7\n'}
+    if rng.random() < 0.08:
+        # one of the files under test is named like a module of the standard library (the
+        # documented limitation: the module that is found first wins, every time); other doctests
+        # use the real one
+        pid = 'qxtf0d0s0a'
+        world['modules'].append({'name': 'colorsys', 'relpath': 'colorsys.py', 'items': [
+            {'kind': 'func', 'name': 'f0', 'doc': {'layout': 'google', 'tabs': False, 'doctests': [
+                {'tag': 'Example', 'steps': [{'i': 0, 'form': 'emit', 'pts': [pid], 'ps2': False, 'sep': 'none'}]}]}}]})
+        for dtid, dt, mod in W.iter_doctests(world):
+            if mod['name'] != 'colorsys' and rng.random() < 0.7:
+                b = max(st['i'] for st in dt['steps']) + 60
+                dt['steps'].insert(rng.randint(0, len(dt['steps'])),
+                                   {'i': b, 'form': 'usestd', 'pts': ['qxt%ds%da' % (n, b)], 'ps2': False, 'sep': 'blank'})
+                n += 1
+                dt['steps'][0]['sep'] = 'none'
+                gen.fix_chunk_starts(dt['steps'])
     ids = gen.doctest_ids(world)
-    ids = ids[:8]
+    if len(ids) > 8:
+        ids = ids[:7] + ids[-1:]
     mods = [m['relpath'] for m in world['modules']]
     ops = []
     n_ops = rng.randint(2, 10)
